@@ -1151,6 +1151,21 @@ func (g *Gen) exit() {
 			vars[nm] = Val{T: n, Sort: g.u.sortOf(rt), GoT: rt}
 		}
 	}
+	for _, eg := range g.con.ExitGhost {
+		genv := g.envFor(vars, st, g.old)
+		lv := genv.tr(eg.LHS)
+		if !lv.isLv() || lv.GKind == "" {
+			panic(fmt.Errorf("exitghost: %s is not a ghost location", eg.LHS))
+		}
+		rv := genv.tr(eg.E)
+		t := ""
+		if seqLike(rv) {
+			t = genv.asSeq(rv)
+		} else {
+			t = genv.rv(rv).T
+		}
+		g.setHeap(st, lv.GKind, "(store "+g.heap(st, lv.GKind)+" "+lv.Addr+" "+t+")")
+	}
 	env := g.envFor(vars, st, g.old)
 	for i, c := range g.con.Ensures {
 		if c.Unproved {
@@ -1182,7 +1197,7 @@ func (g *Gen) exit() {
 
 // frameCheck: every pre-existing location outside the modifies clause is unchanged.
 func (g *Gen) frameCheck(st *State, env *Env) {
-	if g.con.Trusted {
+	if g.con.Trusted || g.con.NoFrame {
 		return
 	}
 	oldEnv := g.envFor(g.penv, g.old, g.old)
